@@ -156,6 +156,22 @@ var perturbations = []perturb{
 		c := m.LogConfigs.Config[i]
 		c.MaxMergeDelaySec, c.ExpectedMergeDelaySec = 100, 101
 	}},
+	{"mmd.expected-without-max", "reject", func(w *CfgWorld, m *configpb.LogMultiConfig, i int) {
+		c := m.LogConfigs.Config[i]
+		c.MaxMergeDelaySec, c.ExpectedMergeDelaySec = 0, 1+int32(kernel.HashChoice(w.s.Seed, "emd", 7200))
+	}},
+	{"mmd.max-negative-only", "reject", func(w *CfgWorld, m *configpb.LogMultiConfig, i int) {
+		c := m.LogConfigs.Config[i]
+		c.MaxMergeDelaySec, c.ExpectedMergeDelaySec = -1, 0
+	}},
+	{"mmd.both-zero", "harmless", func(w *CfgWorld, m *configpb.LogMultiConfig, i int) {
+		c := m.LogConfigs.Config[i]
+		c.MaxMergeDelaySec, c.ExpectedMergeDelaySec = 0, 0
+	}},
+	{"mmd.max-only", "harmless", func(w *CfgWorld, m *configpb.LogMultiConfig, i int) {
+		c := m.LogConfigs.Config[i]
+		c.MaxMergeDelaySec, c.ExpectedMergeDelaySec = 1+int32(kernel.HashChoice(w.s.Seed, "mmd", 86400)), 0
+	}},
 	{"mmd.equal", "harmless", func(w *CfgWorld, m *configpb.LogMultiConfig, i int) {
 		c := m.LogConfigs.Config[i]
 		c.MaxMergeDelaySec, c.ExpectedMergeDelaySec = 100, 100
